@@ -56,7 +56,7 @@ CLAIMED.update({
         SCRATCH_NOTE + VSHIM_NOTE, STEP + "symbolic character buffer, scanner run twice", "§4 C05"),
     "C06": (
         "One-step obligations on the variable store: an unassigned variable reads as zero of the type given by its suffix or its first letter's DEFtype (all 4^26 tables); a store leaves a value of the variable's own type or fails with TYPE MISMATCH / OVERFLOW and stores nothing; "
-        "a 2-dimensional array accepts exactly 0..bound in each dimension for every Integer subscript pair; an undeclared array has bound 10 and cannot be dimensioned afterwards. Aliasing between names (key construction) is outside this check.",
+        "a 2-dimensional array accepts exactly 0..bound in each dimension for every Integer subscript pair; an undeclared array has bound 10 and cannot be dimensioned afterwards; ERASE A removes array A's elements only (AB(..) and the scalar A keep their symbolic values). Aliasing between names in general (key construction) is outside this check.",
         SCRATCH_NOTE + VSHIM_NOTE, STEP + "symbolic DEFtype table, values and subscripts", "§4 C06"),
     "C07": (
         "Claimed for all numeric arguments on fixed strings: LEFT$, RIGHT$, MID$ (and INSTR in the thorough tier) on a string of 1-, 2- and 4-byte characters return exactly the documented characters for every Integer argument and raise errors for out-of-domain ones; "
